@@ -73,10 +73,11 @@ impl varlink::Interface for UpIface {
 }
 
 pub const ABORT_NAME: &str = "org.example.abort";
-pub const ABORT_DESC: &str = "interface org.example.abort\nmethod Silent() -> ()\nmethod ReplyThenAbort(delay_ms: int, token: string) -> (aborting: string)\n";
+pub const ABORT_DESC: &str = "interface org.example.abort\nmethod Silent() -> ()\nmethod ReplyThenAbort(delay_ms: int, token: string) -> (aborting: string)\nmethod SlowReply(delay_ms: int, token: string) -> (slow: string)\nmethod SlowStream(delay_ms: int, token: string) -> (i: int, token: string)\n";
 
 /// a service that drops the connection: `Silent` returns an error without replying,
-/// `ReplyThenAbort` replies, waits `delay_ms` and then returns an error
+/// `ReplyThenAbort` replies, waits `delay_ms` and then returns an error; and a slow one:
+/// `SlowReply` waits `delay_ms` before its reply, `SlowStream` (with `more`) between its two replies
 pub struct AbortIface;
 
 impl varlink::Interface for AbortIface {
@@ -102,6 +103,25 @@ impl varlink::Interface for AbortIface {
                     std::thread::sleep(Duration::from_millis(delay));
                 }
                 Err(varlink::ErrorKind::Generic.into())
+            }
+            "org.example.abort.SlowReply" => {
+                let p = req.parameters.clone().unwrap_or(Value::Null);
+                let delay = p.get("delay_ms").and_then(|d| d.as_u64()).unwrap_or(0);
+                let token = p.get("token").and_then(|d| d.as_str()).unwrap_or("").to_string();
+                std::thread::sleep(Duration::from_millis(delay));
+                call.reply_struct(Reply::parameters(Some(json!({ "slow": token }))))
+            }
+            "org.example.abort.SlowStream" => {
+                let p = req.parameters.clone().unwrap_or(Value::Null);
+                let delay = p.get("delay_ms").and_then(|d| d.as_u64()).unwrap_or(0);
+                let token = p.get("token").and_then(|d| d.as_str()).unwrap_or("").to_string();
+                if call.wants_more() {
+                    call.set_continues(true);
+                    call.reply_struct(Reply::parameters(Some(json!({ "i": 0, "token": token }))))?;
+                    std::thread::sleep(Duration::from_millis(delay));
+                    call.set_continues(false);
+                }
+                call.reply_struct(Reply::parameters(Some(json!({ "i": 1, "token": token }))))
             }
             _ => {
                 let m = req.method.to_string();
@@ -411,6 +431,19 @@ pub fn with_watchdog<T: Send + 'static, F: FnOnce() -> T + Send + 'static>(d: Du
         let _ = tx.send(f());
     });
     rx.recv_timeout(d).ok()
+}
+
+/// SO_RCVTIMEO / SO_SNDTIMEO of a socket are both zero (no transport may leave a timeout behind)
+pub fn no_socket_timeouts(fd: i32) -> bool {
+    for opt in [libc::SO_RCVTIMEO, libc::SO_SNDTIMEO] {
+        let mut tv: libc::timeval = unsafe { std::mem::zeroed() };
+        let mut len = std::mem::size_of::<libc::timeval>() as libc::socklen_t;
+        let r = unsafe { libc::getsockopt(fd, libc::SOL_SOCKET, opt, &mut tv as *mut _ as *mut libc::c_void, &mut len) };
+        if r != 0 || tv.tv_sec != 0 || tv.tv_usec != 0 {
+            return false;
+        }
+    }
+    true
 }
 
 /// a free TCP port on the loopback interface (bound and released)
